@@ -123,7 +123,8 @@ def run(ck):
                 found_disagreement = True
             if fid is None and key in reported:
                 continue
-            reported.add(key)
+            if fid is None:      # a listed finding never hides a later unlisted violation of the same class
+                reported.add(key)
             shk = sh.get("%s %s" % (knob, cls))
             ck.violation({"kind": "spirv-changes-meaning", "finding": fid, "options": t, "result": r[:2000],
                           "wgsl": unq(s[1:-1]), "shrunk": shk,
